@@ -156,8 +156,11 @@ func parseDirs(f []byte) (ds []dirSpec, ok bool) {
 
 // supported mirrors the domain on which fmt_dir is defined (Some): the harness drops the rest.
 func supported(d dirSpec, a fmtArg) bool {
-	if !strings.ContainsRune("dicxXoeEfs", rune(d.verb)) {
-		return false
+	if strings.ContainsRune("gGq", rune(d.verb)) {
+		return false // defined by lstrlib, not modelled
+	}
+	if !strings.ContainsRune("dicuxXoeEfs", rune(d.verb)) {
+		return true // not a conversion of lstrlib: the call must raise 'invalid option'
 	}
 	if a.K == "str" {
 		return true // %s takes it as it is, a numeric conversion converts it or raises
@@ -209,7 +212,7 @@ func runFormat(w *lib.Writer, c fmtIn) {
 			w.Meta.Discarded++
 			return
 		}
-		if i >= len(c.Args) && !strings.ContainsRune("dicxXoeEfs", rune(d.verb)) {
+		if i >= len(c.Args) && strings.ContainsRune("gGq", rune(d.verb)) {
 			w.Meta.Discarded++
 			return
 		}
@@ -349,7 +352,10 @@ func randInt(r *lib.Rand) float64 {
 func argsFor(verb byte, r *lib.Rand, nrand int) []fmtArg {
 	var out []fmtArg
 	switch verb {
-	case 'd', 'i', 'x', 'X', 'o':
+	case 'd', 'i', 'x', 'X', 'o', 'u':
+		if verb != 'd' && verb != 'i' { // unsigned conversions reach up to 2^64
+			out = append(out, numArg(1<<63), numArg(1<<63+1<<62), numArg(18446744073709549568))
+		}
 		for _, v := range intPool {
 			out = append(out, numArg(v))
 		}
@@ -410,6 +416,11 @@ func fmtCorpus(w *lib.Writer) {
 		{F: h("%+x|% x|%+o|% X|%+5x|%+#x"), Args: []fmtArg{n(255), n(255), n(8), n(255), n(255), n(255)}}, // +/space on unsigned (fixed)
 		{F: h("%#.0x|%#5.0o|%+5.0d|%-+5.0d|"), Args: []fmtArg{n(0), n(0), n(0), n(0)}},
 		{F: h("%10f|%-10E|%+f|% e|%010f|%+010f"), Args: []fmtArg{n(math.Inf(1)), n(math.Inf(-1)), n(math.NaN()), n(math.Inf(1)), n(math.Inf(-1)), n(math.NaN())}},
+		{F: h("%u|%5u|%-5u|%05u|%.3u|%u"), Args: []fmtArg{n(5), n(42), n(42), n(42), n(42), n(-1)}}, // %u (fixed)
+		{F: h("%x|%o|%u"), Args: []fmtArg{n(1<<63 + 1<<62), n(1 << 63), n(18446744073709549568)}},        // [2^63,2^64) (fixed)
+		{F: h("%b"), Args: []fmtArg{n(5)}}, {F: h("%v"), Args: []fmtArg{n(5)}}, {F: h("%T"), Args: []fmtArg{n(5)}}, // invalid options raise (fixed)
+		{F: h("%*d"), Args: []fmtArg{n(5), n(5)}}, {F: h("%d%"), Args: []fmtArg{n(5), n(5)}}, {F: h("%5%"), Args: []fmtArg{n(5)}},
+		{F: h("%y"), Args: []fmtArg{strArg([]byte("a"))}},
 		{F: h("%.3d"), Args: []fmtArg{strArg([]byte("42"))}},               // numeric string to a numeric conversion (fixed)
 		{F: h("%+d|%05d|%x|%5.1f|%c|%e"), Args: []fmtArg{strArg([]byte("10")), strArg([]byte(" 7 ")), strArg([]byte("0x10")), strArg([]byte("3.75")), strArg([]byte("65")), strArg([]byte("1e2"))}},
 		{F: h("%d"), Args: []fmtArg{strArg([]byte("abc"))}},                // must raise
@@ -434,6 +445,8 @@ func cDefinedFlags(d dirSpec) bool {
 	switch d.verb {
 	case 'd', 'i':
 		return !d.sharp
+	case 'u':
+		return !d.sharp
 	case 'x', 'X', 'o':
 		return true // '+' and ' ' are defined: they act on signed conversions only
 	case 'c':
@@ -445,7 +458,7 @@ func cDefinedFlags(d dirSpec) bool {
 }
 
 func genFormat(w *lib.Writer, r *lib.Rand, tier string) {
-	verbs := []byte("dicxXoeEfs")
+	verbs := []byte("dicuxXoeEfs")
 	// single directives: flag subsets x widths x precisions x verbs, each with arguments from its pool
 	perDir := 1
 	keepPct := 14
